@@ -1,6 +1,7 @@
 SPECIFICATION Spec
 CONSTANTS
   Deviations <- NoDevs
+  Ranks <- R23
   Big = FALSE
 INVARIANT DesignOK
 INVARIANT WellFormed
